@@ -59,7 +59,7 @@ def run(c):
     if env.get("ok") or "Invariant C16_Model is violated" not in env["out"]:
         raise vlib.NoVerdict("MC_Replica_env: the environment-dependent step was not refuted (model property vacuous)")
     logf = os.path.join(c.wd, "replica.ndjson")
-    tail, pad, nsched = (20, 150, 2) if quick else (150, 300, 6)
+    tail, pad, nsched = (20, 150, 2) if quick else (300, 450, 8)
     vlib.run_vh(["pairs", "replicas", "--seed", str(c.seed), "--out", logf, "--work", c.wd, "--tail", str(tail), "--pad", str(pad),
                  "--schedules", tfile, "--nsched", str(nsched), "--procs", "1,4,16"], timeout=1500 if quick else 3000)
     tr = vlib.trace_check(c.wd, "Trace_Replica", "Trace_Replica.cfg", logf, workers=4, timeout=1200)
